@@ -3,6 +3,8 @@ import Hertz.Proofs.PrefixStable
 import Hertz.Proofs.PrefixStableResp
 import Hertz.Proofs.ScanEdit
 import Hertz.Proofs.ScanEditN
+import Hertz.Proofs.Drain
+import Hertz.Gen.SkipRest
 /-!
 # C02 — message parsing does not depend on how bytes are split into reads
 
@@ -824,5 +826,53 @@ example :
      | .error _ => false) = true := by decide +kernel
 
 end X02b
+
+/-! ## streaming mode: the drain of an unread chunk (`Model/Http1/Drain.lean`, `/repo` 6bc653e)
+
+After the handler of a streamed chunked upload returned, `bodyStream.skipRest` skips what the handler left unread.
+`skipChunkLeft` does it piece by piece as the bytes arrive. -/
+section Drain
+open Hertz.H1.Drain
+
+/-- **the drain is independent of segmentation**: however the bytes of the connection are cut into reads (any number
+of segments, empty ones included), skipping `n` bytes of chunk payload leaves exactly what follows the first `n` bytes
+of the stream — and it fails only when fewer than `n` bytes ever arrive (the peer is gone). -/
+theorem drain_segmentation_independent (buf : Bytes) (segs : List Bytes) (n : Nat) :
+    (n ≤ (buf ++ segs.flatten).length →
+      ∃ rd', skipLeft n ⟨buf, segs⟩ n = some rd' ∧ rd'.all = (buf ++ segs.flatten).drop n) ∧
+    ((buf ++ segs.flatten).length < n → skipLeft n ⟨buf, segs⟩ n = none) :=
+  skipLeft_spec n ⟨buf, segs⟩ n (Nat.le_refl n)
+
+/-- … in particular two deliveries of the same bytes give the same rest -/
+theorem drain_same_for_two_segmentations (b1 b2 : Bytes) (s1 s2 : List Bytes) (n : Nat)
+    (hsame : b1 ++ s1.flatten = b2 ++ s2.flatten) (hn : n ≤ (b1 ++ s1.flatten).length) :
+    ∃ r1 r2, skipLeft n ⟨b1, s1⟩ n = some r1 ∧ skipLeft n ⟨b2, s2⟩ n = some r2 ∧ r1.all = r2.all := by
+  obtain ⟨r1, h1, e1⟩ := (drain_segmentation_independent b1 s1 n).1 hn
+  obtain ⟨r2, h2, e2⟩ := (drain_segmentation_independent b2 s2 n).1 (by rw [← hsame]; exact hn)
+  exact ⟨r1, r2, h1, h2, by rw [e1, e2, hsame]⟩
+
+/-- non-vacuity, and what was wrong: the chunk `world` arriving as `wor` | `ld\r\n…`: the piecewise drain leaves `\r\n`,
+the former single `reader.Skip(5)` failed ("link buffer skip[5] not enough": the connection was closed and the
+pipelined request behind the upload lost, while the same bytes delivered at once were served — found by the
+segmentation cases of this check in streaming mode, reproduced on the real server, repaired in 6bc653e). -/
+theorem drain_whole_skip_fails_at :
+    (skipLeft 5 ⟨[119, 111, 114], [[108, 100, 13, 10]]⟩ 5).map Rd.all = some [13, 10] ∧
+    skipWhole ⟨[119, 111, 114], [[108, 100, 13, 10]]⟩ 5 = none ∧
+    skipWhole ⟨[119, 111, 114, 108, 100, 13, 10], []⟩ 5 = some ⟨[13, 10], []⟩ := by decide
+
+/-- the reader calls of `skipChunkLeft` / `skipRest` in the current source are the ones of the model: no `Skip` of a
+declared chunk size -/
+theorem drain_calls_match_source :
+    Hertz.Gen.SkipRest.calls =
+      [("skipChunkLeft", "rs.reader.Len()"), ("skipChunkLeft", "rs.reader.Peek(1)"), ("skipChunkLeft", "rs.reader.Len()"),
+       ("skipChunkLeft", "rs.reader.Skip(skip)"), ("skipChunkLeft", "rs.reader.Release()"),
+       ("skipRest", "rs.skipChunkLeft()"), ("skipRest", "utils.SkipCRLF(rs.reader)"),
+       ("skipRest", "utils.ParseChunkSize(rs.reader)"), ("skipRest", "SkipTrailer(rs.reader)"),
+       ("skipRest", "rs.skipChunkLeft()"), ("skipRest", "rs.reader.Peek(strCRLFLen)"),
+       ("skipRest", "rs.reader.Skip(strCRLFLen)"), ("skipRest", "rs.reader.Release()"), ("skipRest", "rs.reader.Len()"),
+       ("skipRest", "rs.reader.Peek(1)"), ("skipRest", "rs.reader.Len()"), ("skipRest", "rs.reader.Skip(skip)"),
+       ("skipRest", "rs.reader.Release()")] := by decide
+
+end Drain
 
 end Hertz.Props.C02
